@@ -20,6 +20,7 @@ import (
 	"errors"
 	"fmt"
 	"sync"
+	"sync/atomic"
 	"time"
 
 	"github.com/quickfixgo/quickfix/datadictionary"
@@ -55,7 +56,9 @@ type session struct {
 	sentReset  bool
 	// logonNotified is set when the application has been told of a logon and not yet of the logout.
 	logonNotified bool
-	stopOnce      sync.Once
+	// heartbeatDue: a Heartbeat fell due while a test request was pending (cleared by every send).
+	heartbeatDue atomic.Bool
+	stopOnce     sync.Once
 
 	targetDefaultApplVerID string
 
@@ -488,6 +491,7 @@ func (s *session) sendBytes(msg []byte, blockUntilSent bool) bool {
 	if blockUntilSent {
 		s.messageOut <- msg
 		s.log.OnOutgoing(msg)
+		s.heartbeatDue.Store(false)
 		s.stateTimer.Reset(s.HeartBtInt)
 		return true
 	}
@@ -495,6 +499,7 @@ func (s *session) sendBytes(msg []byte, blockUntilSent bool) bool {
 	select {
 	case s.messageOut <- msg:
 		s.log.OnOutgoing(msg)
+		s.heartbeatDue.Store(false)
 		s.stateTimer.Reset(s.HeartBtInt)
 		return true
 	default:
